@@ -1,1 +1,294 @@
-/-! C17 - property theorems (declared with their full name `C17.<name>`; helper lemmas go to Lemmas/) -/
+import CohdlVerif.Lemmas.C17Lemmas
+
+/-!
+  C17 - property theorems: `std.count_bits` / `std.to_bits` / `std.from_bits[T]` of every type
+  composition (Bit, bool, BitVector/Unsigned/Signed, cohdl.Array, std.Array, std.Record incl. nesting,
+  std.Enum, SFixed/UFixed, Serialized) are mutually inverse, have the documented layout (first field /
+  element 0 in the least significant bits, every field at the sum of the widths declared before it), and
+  `std.BitField` reads / writes touch exactly the declared absolute bit range.
+  All statements are for EVERY type (any nesting depth) and every value / bit pattern; the proofs are
+  structural inductions (Lemmas/C17Lemmas.lean).  Only property theorems live here (full names `C17.*`).
+-/
+open CohdlVerif.C17
+
+namespace CohdlVerif.C17
+/-- a nested example type used by the non-vacuity examples:
+    record { Unsigned[3]; cohdl.Array[Signed[2], 2]; Enum[BitVector[2]]; record { Bit; SFixed[3] }; std.Array[bool, 2] } -/
+def exTy : STy :=
+  .rcd [.uns 3, .arr (.sgn 2) 2, .enum (.bv 2), .rcd [.bit, .sfix 3 (-1)], .sarr .bool 2]
+def exVal : SVal :=
+  .rcd [.uns 3 5, .arr [.sgn 2 (-2), .sgn 2 1], .enum (.bv [true, true]), .rcd [.bit true, .sfix 3 (-4)],
+    .sarr [.bool false, .bool true]]
+/-- 3 + 4 + 2 + 4 + 2 = 15 bits -/
+def exBits : Bits :=
+  [true, false, true, false, true, true, false, true, true, true, false, false, true, false, true]
+end CohdlVerif.C17
+
+/-! ## 4. the mirror (offset accumulation, reversed `concat`) is the documented layout -/
+
+theorem C17.mirror_eq_spec_width (T : STy) : countBits T = specWidth T :=
+  countBits_eq_specWidth T
+
+/-- `_make_serializable`'s running `elem_start` after the fields `fs`, started at `off` -/
+theorem C17.mirror_eq_spec_elem_start (fs : List STy) (off : Nat) :
+    countFields fs off = off + specWidths fs :=
+  countFields_eq fs off
+
+theorem C17.mirror_eq_spec_toBits (x : SVal) : toBits x = specBits x :=
+  toBits_eq_specBits x
+
+/-- unconditional (no width hypothesis needed) -/
+theorem C17.mirror_eq_spec_fromBits (T : STy) (b : Bits) : fromBits T b = specVal T b :=
+  fromBits_eq_specVal T b
+
+theorem C17.mirror_eq_spec (T : STy) :
+    countBits T = specWidth T ∧ (∀ x : SVal, toBits x = specBits x) ∧
+      (∀ b : Bits, b.length = countBits T → fromBits T b = specVal T b) :=
+  ⟨countBits_eq_specWidth T, toBits_eq_specBits, fun b _ => fromBits_eq_specVal T b⟩
+
+example : exBits.length = countBits exTy := by decide
+
+/-! ## 1.-3. widths and round trips -/
+
+theorem C17.length_toBits (T : STy) (x : SVal) (h : wt T x = true) : (toBits x).length = countBits T := by
+  rw [toBits_eq_specBits, countBits_eq_specWidth]; exact length_specBits T x h
+
+example : wt exTy exVal = true := by decide
+example : (toBits exVal).length = 15 := C17.length_toBits exTy exVal (by decide)
+
+theorem C17.from_to (T : STy) (x : SVal) (h : wt T x = true) : fromBits T (toBits x) = x := by
+  rw [toBits_eq_specBits, fromBits_eq_specVal]; exact specVal_specBits T x h
+
+example : fromBits exTy (toBits exVal) = exVal := C17.from_to exTy exVal (by decide)
+
+theorem C17.to_from (T : STy) (b : Bits) (h : b.length = countBits T) : toBits (fromBits T b) = b := by
+  rw [toBits_eq_specBits, fromBits_eq_specVal]
+  exact specBits_specVal T b (by rw [h, countBits_eq_specWidth])
+
+example : toBits (fromBits exTy exBits) = exBits := C17.to_from exTy exBits (by decide)
+
+theorem C17.fromBits_wellTyped (T : STy) (b : Bits) (h : b.length = countBits T) :
+    wt T (fromBits T b) = true := by
+  rw [fromBits_eq_specVal]
+  exact wt_specVal T b (by rw [h, countBits_eq_specWidth])
+
+example : wt exTy (fromBits exTy exBits) = true := C17.fromBits_wellTyped exTy exBits (by decide)
+
+/-- the checked form (`from_bits` asserts the width): total on exactly the right width, and a bijection
+    between the bit vectors of width `count_bits(T)` and the well-typed values -/
+theorem C17.fromBitsChecked_toBits (T : STy) (x : SVal) (h : wt T x = true) :
+    fromBitsChecked T (toBits x) = some x := by
+  simp [fromBitsChecked, C17.length_toBits T x h, C17.from_to T x h]
+
+example : fromBitsChecked exTy (toBits exVal) = some exVal := C17.fromBitsChecked_toBits exTy exVal (by decide)
+
+/-- serialisation is injective on well-typed values -/
+theorem C17.toBits_injective (T : STy) (x y : SVal) (hx : wt T x = true) (hy : wt T y = true)
+    (h : toBits x = toBits y) : x = y := by
+  rw [← C17.from_to T x hx, ← C17.from_to T y hy, h]
+
+/-! ## 5. layout -/
+
+/-- a well-typed record value has as many fields as its type -/
+theorem C17.wt_record_length (fs : List STy) (xs : List SVal) (h : wt (.rcd fs) (.rcd xs) = true) :
+    xs.length = fs.length :=
+  wtFields_length fs xs (by simpa [wt] using h)
+
+/-- the first declared field occupies the least significant bits -/
+theorem C17.layout_first_is_lsb (t : STy) (ts : List STy) (x : SVal) (xs : List SVal)
+    (h : wt (.rcd (t :: ts)) (.rcd (x :: xs)) = true) :
+    (toBits (.rcd (x :: xs))).take (countBits t) = toBits x := by
+  simp only [wt, wtFields, Bool.and_eq_true] at h
+  rw [toBits_eq_specBits, toBits_eq_specBits, countBits_eq_specWidth, specBits, specBitsL]
+  exact List.take_left' (length_specBits t x h.1)
+
+example : (toBits exVal).take 3 = toBits (.uns 3 5) :=
+  C17.layout_first_is_lsb (.uns 3) [.arr (.sgn 2) 2, .enum (.bv 2), .rcd [.bit, .sfix 3 (-1)], .sarr .bool 2]
+    (.uns 3 5) _ (by decide)
+
+/-- element 0 of a `cohdl.Array` occupies the least significant bits -/
+theorem C17.layout_first_is_lsb_arr (e : STy) (n : Nat) (x : SVal) (xs : List SVal)
+    (h : wt (.arr e n) (.arr (x :: xs)) = true) :
+    (toBits (.arr (x :: xs))).take (countBits e) = toBits x := by
+  simp only [wt, wtAll, Bool.and_eq_true] at h
+  rw [toBits_eq_specBits, toBits_eq_specBits, countBits_eq_specWidth, specBits, specBitsL]
+  exact List.take_left' (length_specBits e x h.2.1)
+
+example : (toBits (.arr [.sgn 2 (-2), .sgn 2 1])).take 2 = toBits (.sgn 2 (-2)) :=
+  C17.layout_first_is_lsb_arr (.sgn 2) 2 _ _ (by decide)
+
+/-- element 0 of a `std.Array` occupies the least significant bits -/
+theorem C17.layout_first_is_lsb_sarr (e : STy) (n : Nat) (x : SVal) (xs : List SVal)
+    (h : wt (.sarr e n) (.sarr (x :: xs)) = true) :
+    (toBits (.sarr (x :: xs))).take (countBits e) = toBits x := by
+  simp only [wt, wtAll, Bool.and_eq_true] at h
+  rw [toBits_eq_specBits, toBits_eq_specBits, countBits_eq_specWidth, specBits, specBitsL]
+  exact List.take_left' (length_specBits e x h.2.1)
+
+example : (toBits (.sarr [.bool false, .bool true])).take 1 = toBits (.bool false) :=
+  C17.layout_first_is_lsb_sarr .bool 2 _ _ (by decide)
+
+/-- `fieldOffset` (sum of the widths declared before field `i`) is the `elem_start` the real code
+    accumulates for field `i` -/
+theorem C17.fieldOffset_eq_elem_start (fs : List STy) (i : Nat) :
+    countFields (fs.take i) 0 = fieldOffset fs i := by
+  rw [countFields_eq, fieldOffset]; omega
+
+/-- the `lo:w` table the real code accumulates for a record (`offsets` request of the driver, compared
+    with `_make_serializable`'s slices by the harness) is `(fieldOffset fs i, count_bits(field i))` -/
+theorem C17.offsets_table_record (fs : List STy) (i : Nat) :
+    (offsetsOf (.rcd fs)).map (·[i]?) = some (fs[i]?.map (fun t => (fieldOffset fs i, countBits t))) := by
+  simp [offsetsOf, offsetsOf_go_getElem?]
+
+/-- field `i` of a record is found exactly at `[fieldOffset fs i + width - 1 : fieldOffset fs i]`
+    (`hx` is implied by `h` and `hi`: `C17.wt_record_length`) -/
+theorem C17.layout_field_at_offset (fs : List STy) (xs : List SVal) (h : wt (.rcd fs) (.rcd xs) = true)
+    (i : Nat) (hi : i < fs.length) (hx : i < xs.length) :
+    slice (toBits (.rcd xs)) (fieldOffset fs i) (countBits fs[i]) = toBits xs[i] := by
+  rw [toBits_eq_specBits, toBits_eq_specBits, countBits_eq_specWidth, specBits]
+  exact slice_specBitsL_field fs xs (by simpa [wt] using h) i hi hx
+
+example : slice (toBits exVal) 9 4 = toBits (.rcd [.bit true, .sfix 3 (-4)]) :=
+  C17.layout_field_at_offset
+    [.uns 3, .arr (.sgn 2) 2, .enum (.bv 2), .rcd [.bit, .sfix 3 (-1)], .sarr .bool 2] _
+    (by decide) 3 (by decide) (by decide)
+
+/-- element `i` of a `cohdl.Array` is found exactly at `[i*w + w - 1 : i*w]` -/
+theorem C17.layout_elem_at_offset (e : STy) (n : Nat) (xs : List SVal) (h : wt (.arr e n) (.arr xs) = true)
+    (i : Nat) (hx : i < xs.length) :
+    slice (toBits (.arr xs)) (i * countBits e) (countBits e) = toBits xs[i] := by
+  simp only [wt, Bool.and_eq_true] at h
+  rw [toBits_eq_specBits, toBits_eq_specBits, countBits_eq_specWidth, specBits]
+  exact slice_specBitsL_elem e xs h.2 i hx
+
+example : slice (toBits (.arr [.sgn 2 (-2), .sgn 2 1])) (1 * 2) 2 = toBits (.sgn 2 1) :=
+  C17.layout_elem_at_offset (.sgn 2) 2 [.sgn 2 (-2), .sgn 2 1] (by decide) 1 (by decide)
+
+/-- element `i` of a `std.Array` is found exactly at `[i*w + w - 1 : i*w]` -/
+theorem C17.layout_elem_at_offset_sarr (e : STy) (n : Nat) (xs : List SVal)
+    (h : wt (.sarr e n) (.sarr xs) = true) (i : Nat) (hx : i < xs.length) :
+    slice (toBits (.sarr xs)) (i * countBits e) (countBits e) = toBits xs[i] := by
+  simp only [wt, Bool.and_eq_true] at h
+  rw [toBits_eq_specBits, toBits_eq_specBits, countBits_eq_specWidth, specBits]
+  exact slice_specBitsL_elem e xs h.2 i hx
+
+example : slice (toBits (.sarr [.bool false, .bool true])) (1 * 1) 1 = toBits (.bool true) :=
+  C17.layout_elem_at_offset_sarr .bool 2 [.bool false, .bool true] (by decide) 1 (by decide)
+
+/-! ## 6. BitField: reads and writes touch exactly the declared absolute range -/
+
+/-- the declared range lies inside the outermost vector -/
+theorem C17.bitfield_range_inside (p : List (Nat × Nat)) (lo w W : Nat) (h : pathOk p lo w W = true) :
+    absLo p lo + w ≤ W :=
+  pathOk_absLo p lo w W h
+
+/-- a read through any nesting of sub-bitfields returns exactly the declared absolute range -/
+theorem C17.bitfield_read_range (p : List (Nat × Nat)) (lo w W : Nat) (b : Bits)
+    (h : pathOk p lo w W = true) (hb : b.length = W) :
+    readPath p lo w b = slice b (absLo p lo) w :=
+  readPath_eq_slice p lo w W b h hb
+
+example : readPath [(4, 8), (2, 4)] 1 2 (exBits ++ [false]) = slice (exBits ++ [false]) 7 2 :=
+  C17.bitfield_read_range [(4, 8), (2, 4)] 1 2 16 _ (by decide) (by decide)
+
+/-- closed form of a write: the bits below and above the declared range are kept, the range is `v` -/
+theorem C17.bitfield_write_closed (p : List (Nat × Nat)) (lo W : Nat) (v b : Bits)
+    (h : pathOk p lo v.length W = true) (hb : b.length = W) :
+    writePath p lo v b = b.take (absLo p lo) ++ v ++ b.drop (absLo p lo + v.length) :=
+  writePath_closed p lo W v b h hb
+
+example : writePath [(4, 8), (2, 4)] 1 [true, false] (exBits ++ [false])
+    = (exBits ++ [false]).take 7 ++ [true, false] ++ (exBits ++ [false]).drop 9 :=
+  C17.bitfield_write_closed [(4, 8), (2, 4)] 1 16 [true, false] _ (by decide) (by decide)
+
+theorem C17.bitfield_write_length (p : List (Nat × Nat)) (lo w W : Nat) (v b : Bits)
+    (h : pathOk p lo w W = true) (hb : b.length = W) (hv : v.length = w) :
+    (writePath p lo v b).length = W := by
+  subst hv
+  have := pathOk_absLo p lo _ W h
+  rw [writePath_closed p lo W v b h hb]
+  simp only [List.length_append, List.length_take, List.length_drop]; omega
+
+/-- reading a field back after writing it returns the written value -/
+theorem C17.bitfield_read_after_write (p : List (Nat × Nat)) (lo w W : Nat) (v b : Bits)
+    (h : pathOk p lo w W = true) (hb : b.length = W) (hv : v.length = w) :
+    readPath p lo w (writePath p lo v b) = v := by
+  have hl := C17.bitfield_write_length p lo w W v b h hb hv
+  subst hv
+  have := pathOk_absLo p lo _ W h
+  rw [readPath_eq_slice p lo _ W _ h hl, writePath_closed p lo W v b h hb, slice]
+  have ht : (b.take (absLo p lo)).length = absLo p lo := by rw [List.length_take]; omega
+  rw [List.append_assoc, List.drop_left' ht, List.take_left' rfl]
+
+/-- every bit outside the declared absolute range is unchanged by a write -/
+theorem C17.bitfield_write_outside (p : List (Nat × Nat)) (lo w W : Nat) (v b : Bits)
+    (h : pathOk p lo w W = true) (hb : b.length = W) (hv : v.length = w)
+    (i : Nat) (hi : i < absLo p lo ∨ absLo p lo + w ≤ i) :
+    (writePath p lo v b)[i]? = b[i]? := by
+  subst hv
+  have := pathOk_absLo p lo _ W h
+  rw [writePath_closed p lo W v b h hb]
+  simp only [List.getElem?_append, List.length_append, List.length_take,
+    List.getElem?_take, List.getElem?_drop]
+  repeat' split
+  all_goals first | omega | rfl | (congr 1; omega)
+
+/-- a write to one field does not disturb a read of any field whose declared range is disjoint -/
+theorem C17.bitfield_disjoint_fields (p q : List (Nat × Nat)) (lo lo' w w' W : Nat) (v b : Bits)
+    (h : pathOk p lo w W = true) (h' : pathOk q lo' w' W = true) (hb : b.length = W) (hv : v.length = w)
+    (hd : absLo q lo' + w' ≤ absLo p lo ∨ absLo p lo + w ≤ absLo q lo') :
+    readPath q lo' w' (writePath p lo v b) = readPath q lo' w' b := by
+  have hl := C17.bitfield_write_length p lo w W v b h hb hv
+  have h1 := pathOk_absLo p lo w W h
+  have h2 := pathOk_absLo q lo' w' W h'
+  rw [readPath_eq_slice q lo' w' W _ h' hl, readPath_eq_slice q lo' w' W _ h' hb]
+  apply List.ext_getElem?
+  intro i
+  simp only [slice, List.getElem?_take, List.getElem?_drop]
+  split
+  · exact C17.bitfield_write_outside p lo w W v b h hb hv _ (by omega)
+  · rfl
+
+theorem C17.bitfield_ranges (p : List (Nat × Nat)) (lo w W : Nat) (v b : Bits)
+    (h : pathOk p lo w W = true) (hb : b.length = W) (hv : v.length = w) :
+    readPath p lo w b = slice b (absLo p lo) w ∧
+    (writePath p lo v b).length = W ∧
+    readPath p lo w (writePath p lo v b) = v ∧
+    (∀ i, (i < absLo p lo ∨ absLo p lo + w ≤ i) → (writePath p lo v b)[i]? = b[i]?) :=
+  ⟨C17.bitfield_read_range p lo w W b h hb, C17.bitfield_write_length p lo w W v b h hb hv,
+   C17.bitfield_read_after_write p lo w W v b h hb hv, C17.bitfield_write_outside p lo w W v b h hb hv⟩
+
+example : pathOk [(4, 8), (2, 4)] 1 2 16 = true ∧ (exBits ++ [false]).length = 16 ∧
+    ([true, false] : Bits).length = 2 := by decide
+
+/-! ## 7. Serialized[T] -/
+
+theorem C17.serialized_roundtrip (T : STy) (x : SVal) (h : wt T x = true) : serValue T (serOf x) = x := by
+  simp only [serOf, serValue]; exact C17.from_to T x h
+
+example : serValue exTy (serOf exVal) = exVal := C17.serialized_roundtrip exTy exVal (by decide)
+
+/-- `Serialized` is a wrapper: its serialised form is the raw vector itself -/
+theorem C17.serialized_bits (raw : Bits) : toBits (.ser raw) = raw := by
+  simp [toBits]
+
+/-- wrapping a well-typed value gives a well-typed `Serialized[T]` of the same width -/
+theorem C17.serialized_wellTyped (T : STy) (x : SVal) (h : wt T x = true) :
+    wt (.ser T) (serOf x) = true ∧ toBits (serOf x) = toBits x := by
+  simp [serOf, wt, toBits, C17.length_toBits T x h]
+
+/-! ## 8. enums: any pattern of the underlying type, member or not -/
+
+/-- no membership restriction: every bit pattern of the underlying width survives
+    `from_bits[Enum]` followed by `to_bits` -/
+theorem C17.enum_any_pattern (u : STy) (b : Bits) (h : b.length = countBits u) :
+    toBits (fromBits (.enum u) b) = b :=
+  C17.to_from (.enum u) b (by simpa [countBits] using h)
+
+/-- e.g. the pattern `11` of an enum over `BitVector[2]` whose members are, say, only `00` and `01` -/
+example : toBits (fromBits (.enum (.bv 2)) [true, true]) = [true, true] :=
+  C17.enum_any_pattern (.bv 2) [true, true] (by decide)
+
+/-- and the decoded enum carries exactly that raw pattern -/
+theorem C17.enum_raw (u : STy) (b : Bits) : fromBits (.enum u) b = .enum (fromBits u b) := by
+  simp [fromBits]
